@@ -143,7 +143,7 @@ def run_check(prop, tier="quick", seed=0, only=None, jobs=None):
     with ctx.Pool(min(jobs, max(1, len(units) + len(fns))), maxtasksperchild=8) as pool:
         ur = [pool.apply_async(_unit_worker, (u,)) for u in units]
         fr = [pool.apply_async(_fn_worker, (f,)) for f in fns]
-        budget = 900 if tier == "quick" else 3600
+        budget = 600 if tier == "quick" else 3600
         for u, r in zip(units, ur):
             try:
                 unit_results.append(r.get(timeout=max(5, budget - (time.time() - t_start))))
